@@ -1,0 +1,256 @@
+//go:build verif
+
+package lang
+
+// Observation hooks for the verification harness. Compiled only with
+// -tags verif; nothing here changes behaviour.
+
+import (
+	"encoding/hex"
+	"fmt"
+	"strings"
+)
+
+func verifHex(s string) string {
+	if len(s) == 0 {
+		return "-"
+	}
+	return hex.EncodeToString([]byte(s))
+}
+
+type verifDumper struct {
+	lexer *Lexer
+	sb    strings.Builder
+}
+
+func (d *verifDumper) text(t Token) string {
+	if t.Len == 0 {
+		return "-"
+	}
+	return verifHex(d.lexer.GetString(&t))
+}
+
+func (d *verifDumper) expr(e Expr) {
+	switch ex := e.(type) {
+	case *ExprLiteral:
+		fmt.Fprintf(&d.sb, "(lit %d %d %s)", ex.token.Tag, ex.token.Pos, d.text(ex.token))
+	case *ExprIdentifier:
+		fmt.Fprintf(&d.sb, "(id %d %d %s)", ex.token.Tag, ex.token.Pos, d.text(ex.token))
+	case *ExprArray:
+		fmt.Fprintf(&d.sb, "(arr %d", ex.token.Pos)
+		for _, it := range ex.Items {
+			d.sb.WriteByte(' ')
+			d.expr(it)
+		}
+		d.sb.WriteByte(')')
+	case *ExprObject:
+		fmt.Fprintf(&d.sb, "(obj %d", ex.token.Pos)
+		for _, kv := range ex.Items {
+			fmt.Fprintf(&d.sb, " (kv %s ", verifHex(kv.Key))
+			d.expr(kv.Value)
+			d.sb.WriteByte(')')
+		}
+		d.sb.WriteByte(')')
+	case *ExprUnary:
+		post := 0
+		if ex.Postfix {
+			post = 1
+		}
+		fmt.Fprintf(&d.sb, "(un %d %d %d ", ex.OpToken.Tag, ex.OpToken.Pos, post)
+		d.expr(ex.Expr)
+		d.sb.WriteByte(')')
+	case *ExprBinary:
+		fmt.Fprintf(&d.sb, "(bin %d %d ", ex.OpToken.Tag, ex.OpToken.Pos)
+		d.expr(ex.Left)
+		d.sb.WriteByte(' ')
+		d.expr(ex.Right)
+		d.sb.WriteByte(')')
+	case *ExprCall:
+		d.sb.WriteString("(call ")
+		d.expr(ex.Func)
+		for _, a := range ex.Args {
+			d.sb.WriteByte(' ')
+			d.expr(a)
+		}
+		d.sb.WriteByte(')')
+	case *ExprMatch:
+		fmt.Fprintf(&d.sb, "(match %d ", ex.token.Pos)
+		d.expr(ex.Value)
+		for _, c := range ex.Cases {
+			d.sb.WriteString(" (case (pats")
+			for _, p := range c.Exprs {
+				d.sb.WriteByte(' ')
+				d.expr(p)
+			}
+			d.sb.WriteString(") ")
+			d.stmt(c.Body)
+			d.sb.WriteByte(')')
+		}
+		d.sb.WriteByte(')')
+	default:
+		fmt.Fprintf(&d.sb, "(unknown-expr %T)", e)
+	}
+}
+
+func (d *verifDumper) stmt(s Statement) {
+	switch st := s.(type) {
+	case *StatementBlock:
+		fmt.Fprintf(&d.sb, "(block %d", st.token.Pos)
+		for _, b := range st.Body {
+			d.sb.WriteByte(' ')
+			d.stmt(b)
+		}
+		d.sb.WriteByte(')')
+	case *StatementPrint:
+		fmt.Fprintf(&d.sb, "(print %d", st.token.Pos)
+		for _, a := range st.Args {
+			d.sb.WriteByte(' ')
+			d.expr(a)
+		}
+		d.sb.WriteByte(')')
+	case *StatementExpr:
+		d.sb.WriteString("(expr ")
+		d.expr(st.Expr)
+		d.sb.WriteByte(')')
+	case *StatementReturn:
+		if st.Expr == nil {
+			d.sb.WriteString("(ret)")
+		} else {
+			d.sb.WriteString("(ret ")
+			d.expr(st.Expr)
+			d.sb.WriteByte(')')
+		}
+	case *StatementBreak:
+		fmt.Fprintf(&d.sb, "(brk %d)", st.token.Pos)
+	case *StatementContinue:
+		fmt.Fprintf(&d.sb, "(cont %d)", st.token.Pos)
+	case *StatementNext:
+		fmt.Fprintf(&d.sb, "(next %d)", st.token.Pos)
+	case *StatementExit:
+		fmt.Fprintf(&d.sb, "(exit %d)", st.token.Pos)
+	case *StatementIf:
+		d.sb.WriteString("(if ")
+		d.expr(st.Expr)
+		d.sb.WriteByte(' ')
+		d.stmt(st.Body)
+		if st.ElseBody != nil {
+			d.sb.WriteByte(' ')
+			d.stmt(st.ElseBody)
+		}
+		d.sb.WriteByte(')')
+	case *StatementWhile:
+		d.sb.WriteString("(while ")
+		d.expr(st.Expr)
+		d.sb.WriteByte(' ')
+		d.stmt(st.Body)
+		d.sb.WriteByte(')')
+	case *StatementFor:
+		d.sb.WriteString("(for ")
+		d.expr(st.PreExpr)
+		d.sb.WriteByte(' ')
+		d.expr(st.Expr)
+		d.sb.WriteByte(' ')
+		d.expr(st.PostExpr)
+		d.sb.WriteByte(' ')
+		d.stmt(st.Body)
+		d.sb.WriteByte(')')
+	case *StatementForIn:
+		fmt.Fprintf(&d.sb, "(forin %d %s ", st.Ident.token.Pos, d.text(st.Ident.token))
+		if st.IndexIdent != nil {
+			fmt.Fprintf(&d.sb, "(idx %d %s) ", st.IndexIdent.token.Pos, d.text(st.IndexIdent.token))
+		}
+		d.expr(st.Iterable)
+		d.sb.WriteByte(' ')
+		d.stmt(st.Body)
+		d.sb.WriteByte(')')
+	default:
+		fmt.Fprintf(&d.sb, "(unknown-stmt %T)", s)
+	}
+}
+
+// VerifDumpProgram parses src as a program and renders the AST as an
+// S-expression, or returns the syntax error.
+func VerifDumpProgram(src string) (string, error) {
+	lex := NewLexer(src)
+	parser := NewParser(&lex)
+	prog, err := parser.Parse()
+	if err != nil {
+		return "", err
+	}
+	d := verifDumper{lexer: &lex}
+	d.sb.WriteString("(prog")
+	for _, r := range prog.Rules {
+		fmt.Fprintf(&d.sb, " (rule %d ", r.Kind)
+		if r.Pattern != nil {
+			d.sb.WriteString("(pat ")
+			d.expr(r.Pattern)
+			d.sb.WriteString(") ")
+		}
+		d.stmt(r.Body)
+		d.sb.WriteByte(')')
+	}
+	for _, f := range prog.Functions {
+		fmt.Fprintf(&d.sb, " (fn %d %s (args", f.ident.Pos, d.text(f.ident))
+		for _, a := range f.Args {
+			d.sb.WriteByte(' ')
+			d.sb.WriteString(verifHex(a))
+		}
+		d.sb.WriteString(") ")
+		d.stmt(f.Body)
+		d.sb.WriteByte(')')
+	}
+	d.sb.WriteByte(')')
+	return d.sb.String(), nil
+}
+
+// VerifDumpExpr does the same for a single expression (as used by -r).
+func VerifDumpExpr(src string) (string, error) {
+	lex := NewLexer(src)
+	parser := NewParser(&lex)
+	expr, err := parser.ParseExpression()
+	if err != nil {
+		return "", err
+	}
+	d := verifDumper{lexer: &lex}
+	d.expr(expr)
+	return d.sb.String(), nil
+}
+
+// VerifTokens runs Lexer.Next until EOF or an error and lists the tokens as
+// "tag:pos:hextext" separated by spaces; an error ends the list with
+// "ERR:line:col".
+func VerifTokens(src string) string {
+	lex := NewLexer(src)
+	var sb strings.Builder
+	for {
+		t, err := lex.Next()
+		if err != nil {
+			if se, ok := err.(SyntaxError); ok {
+				fmt.Fprintf(&sb, "ERR:%d:%d", se.Line, se.Col)
+			} else {
+				sb.WriteString("ERR:?:?")
+			}
+			break
+		}
+		text := "-"
+		if t.Len > 0 {
+			text = verifHex(lex.GetString(&t))
+		}
+		fmt.Fprintf(&sb, "%d:%d:%s ", t.Tag, t.Pos, text)
+		if t.Tag == EOF {
+			break
+		}
+	}
+	return sb.String()
+}
+
+// VerifFrameDepth is the depth of the innermost stack frame (0 = root).
+func (e *Evaluator) VerifFrameDepth() int {
+	return e.stackTop.depth
+}
+
+// VerifLineCol exposes Lexer.GetLineAndCol for a source text.
+func VerifLineCol(src string, pos int) (string, int, int) {
+	lex := NewLexer(src)
+	return lex.GetLineAndCol(pos)
+}
